@@ -930,21 +930,21 @@ func (l *LineWrapper) postProcessLine(finalLine Line, done bool) (WrappedLine, b
 			// This next block locates the first/last visual glyph on the line and
 			// zeroes its advance if it is whitespace.
 			finalVisualRun := &finalLine[goalIdx]
-			var finalVisualGlyph *Glyph
 			if L := len(finalVisualRun.Glyphs); L > 0 {
+				glyphIdx := 0
 				if l.config.Direction.Progression() == di.FromTopLeft {
-					finalVisualGlyph = &finalVisualRun.Glyphs[L-1]
-				} else {
-					finalVisualGlyph = &finalVisualRun.Glyphs[0]
+					glyphIdx = L - 1
 				}
-
-				if finalVisualRun.Direction.IsVertical() {
-					if finalVisualGlyph.Height == 0 {
-						finalVisualGlyph.YAdvance = 0
-					}
-				} else { // horizontal
-					if finalVisualGlyph.Width == 0 {
-						finalVisualGlyph.XAdvance = 0
+				g := finalVisualRun.Glyphs[glyphIdx]
+				trimY := finalVisualRun.Direction.IsVertical() && g.Height == 0 && g.YAdvance != 0
+				trimX := !finalVisualRun.Direction.IsVertical() && g.Width == 0 && g.XAdvance != 0
+				if trimX || trimY {
+					// the glyphs are shared with the runs given by the caller: work on a copy
+					finalVisualRun.Glyphs = append([]Glyph(nil), finalVisualRun.Glyphs...)
+					if trimY {
+						finalVisualRun.Glyphs[glyphIdx].YAdvance = 0
+					} else {
+						finalVisualRun.Glyphs[glyphIdx].XAdvance = 0
 					}
 				}
 				finalVisualRun.RecomputeAdvance()
